@@ -27,6 +27,7 @@ type C10World struct {
 	IOSeed   uint64        `json:"io_seed"`
 	Events   []world.Event `json:"events"`
 	Steps    int           `json:"steps"`
+	Patch    []world.Seg   `json:"patch,omitempty"` // bytes: placed on top of the seeded image
 }
 
 // C10Sc is a C10 scenario.
@@ -49,6 +50,29 @@ func (c10) New() interface{} { return &C10Sc{} }
 func c10World(r *world.Rng, steps int) C10World {
 	w := C10World{IOSeed: r.U64(), Steps: steps}
 	mode := r.Intn(3)
+	if r.Chance(1, 10) {
+		// a block copy that sweeps over its own opcode bytes (and over the code behind it)
+		w.Kind = "bytes"
+		w.MemSeed = 0
+		w.Regs = world.RandRegs(r)
+		pc := uint16(r.Range(0x0100, 0xe000))
+		op := []uint8{0xb0, 0xb8}[r.Intn(2)]
+		n := uint16(r.Range(3, 24))
+		back := uint16(r.Range(1, int(n)-1)) // how many elements before the copy reaches the opcode
+		w.Regs.PC, w.Regs.BC = pc, n
+		src := uint16(r.Range(0x4000, 0x5000))
+		if op == 0xb0 {
+			w.Regs.DE, w.Regs.HL = pc-back, src
+		} else {
+			w.Regs.DE, w.Regs.HL = pc+1+back, src+n
+		}
+		w.Patch = []world.Seg{world.MkSeg(pc, []uint8{0xed, op, 0x3c, 0x3c, 0x76}), world.MkSeg(src-2, make([]uint8, int(n)+4))}
+		if r.Bool() {
+			w.Patch[1] = world.MkSeg(src-2, r.Bytes(int(n)+4))
+		}
+		w.Steps = int(n) + 8
+		return w
+	}
 	if r.Chance(2, 3) {
 		w.Kind = "structured"
 		p := gen.Structured(r, gen.Opts{IO: true, Blocks: r.Range(3, 16), MaxSubs: 3, EI: true, StartEI: r.Chance(3, 4)})
@@ -130,7 +154,10 @@ func c10Machine(w *C10World) *world.Machine {
 		m, _ = world.NewMachine(w.Regs, segs, w.IOSeed, w.Events)
 	} else {
 		m, _ = world.NewMachine(w.Regs, nil, w.IOSeed, w.Events)
-		fillMem(&m.Bus.Mem, w.MemSeed)
+		if w.MemSeed != 0 {
+			fillMem(&m.Bus.Mem, w.MemSeed)
+		}
+		m.Bus.Load(w.Patch)
 	}
 	return m
 }
@@ -213,6 +240,27 @@ func c10Restore(sc *C10Sc, env *Env) *Violation {
 	env.Fire("executed-twice")
 	if v := c10TypeTwin(w, env); v != nil {
 		return v
+	}
+	// host fault: the Memory/IO values are replaced by equal-content ones at every boundary
+	// (mode 1), or the CPU struct is copied by value and given the new devices (mode 2)
+	for mode := 1; mode <= 2; mode++ {
+		m := c10Machine(w)
+		m.SwapMode = mode
+		for k := 0; k < w.Steps; k++ {
+			m.Step()
+			if d := ref[k+1].diff(sigOf(m)); d != "" || m.StaleCount() != 0 {
+				how := "cpu.Memory / cpu.IO replaced by equal-content devices before every Step"
+				if mode == 2 {
+					how = "CPU struct copied by value and given equal-content devices before every Step"
+				}
+				return viol("device-swap", "%s: differs from the undisturbed run at boundary %d (undisturbed!=swapped):%s; accesses that reached an abandoned device: %d", how, k+1, d, m.StaleCount())
+			}
+		}
+		if m.Bus.Mem != refMem {
+			return viol("device-swap", "swap mode %d: final memory image differs", mode)
+		}
+		env.Fire(fmt.Sprintf("device-swap-mode-%d", mode))
+		env.Steps += uint64(w.Steps)
 	}
 	// crash/restart at boundary k: the original continues (= ref), a CPU rebuilt
 	// from copies of the durable state must stay equal at every later boundary
@@ -513,10 +561,9 @@ func c10Interleave(sc *C10Sc, env *Env) *Violation {
 func c10Free(sc *C10Sc, env *Env) *Violation {
 	n := len(sc.Worlds)
 	solo := make([]c10Sig, n)
-	for i := range sc.Worlds {
-		solo[i], _ = c10Solo(&sc.Worlds[i])
-	}
 	got := make([]c10Sig, n)
+	// the concurrent phase comes first: anything the library initialises lazily must
+	// happen on the free-running goroutines, not on this one beforehand
 	var wg sync.WaitGroup
 	for i := range sc.Worlds {
 		wg.Add(1)
@@ -531,6 +578,9 @@ func c10Free(sc *C10Sc, env *Env) *Violation {
 		}(i)
 	}
 	wg.Wait()
+	for i := range sc.Worlds {
+		solo[i], _ = c10Solo(&sc.Worlds[i])
+	}
 	for i := range got {
 		if d := solo[i].diff(got[i]); d != "" {
 			return viol("isolation-free-running", "CPU %d of %d running concurrently differs from its solo run:%s", i, n, d)
